@@ -210,6 +210,16 @@ def run_generator(e, L, cfg):
         symnp.WHERE_POLICY = "symlen"
 
 
+def denoted_vertices(vs, k, t):
+    """vertex set denoted by the generator's second return value (index list at threshold 1, 0/1 mask otherwise)"""
+    if isinstance(vs, symnp.Arr):
+        vals = [core.concrete_int(x) if core.is_sym(x) else (int(x) if not isinstance(x, bool) else x) for x in vs.fix_len().elems()]
+        if vs.dtype == symnp.BOOL or (t >= 2 and len(vals) == 4 ** k and set(vals) <= {0, 1}):
+            return [i for i, x in enumerate(vals) if x]
+        return sorted(vals)
+    return sorted(int(x) for x in vs)
+
+
 def body_wf(e, L, cfg):
     cfg = dict(cfg, want="wf")
     mask, outcome, value, modified, arr = run_generator(e, L, cfg)
@@ -221,6 +231,10 @@ def body_wf(e, L, cfg):
     why = wf_concrete(cfg["k"], rows, cfg["t"])
     if why:
         return {"status": "viol", "why": "generated graph is not well-formed: " + why, "cex": gen_cex(cfg, mask)}
+    # every vertex the generator reports as retained must be a vertex encoding can start from (out-degree >= 1)
+    dead = [v for v in denoted_vertices(vs, cfg["k"], cfg["t"]) if not (0 <= v < len(rows)) or not any(x >= 0 for x in rows[v])]
+    if dead:
+        return {"status": "viol", "why": "vertices %s are reported as retained but have no out-arc in the returned graph" % dead[:6], "cex": gen_cex(cfg, mask, {"retained": True})}
     return {"status": "ok", "sample": {"mask": mask, "t": cfg["t"], "live": sum(1 for r in rows if any(x >= 0 for x in r))}}
 
 
@@ -246,14 +260,7 @@ def body_exact(e, L, cfg):
     if rows != exp:
         return {"status": "viol", "why": "accessor differs from the largest closed sub-graph", "cex": cex}
     # returned vertex description
-    if isinstance(vs, symnp.Arr):
-        vals = [core.concrete_int(x) if core.is_sym(x) else (int(x) if not isinstance(x, bool) else x) for x in vs.fix_len().elems()]
-        if vs.dtype == symnp.BOOL or (t >= 2 and len(vals) == 4 ** k and set(vals) <= {0, 1}):
-            denoted = [i for i, x in enumerate(vals) if x]
-        else:
-            denoted = sorted(vals)
-    else:
-        denoted = sorted(int(x) for x in vs)
+    denoted = denoted_vertices(vs, k, t)
     live = [v for v in range(4 ** k) if any(x >= 0 for x in exp[v])]
     if denoted != live:
         return {"status": "viol", "why": "vertex description %s != vertices with arcs %s" % (denoted, live), "cex": cex}
